@@ -5,6 +5,7 @@ package pilosa
 
 import (
 	"bytes"
+	"fmt"
 	"sort"
 
 	vk "github.com/pilosa/pilosa/internal/verifkit"
@@ -240,4 +241,84 @@ func VerifRawBSI(f *Field, col uint64, depth uint) (value int64, exists bool) {
 		value = -value
 	}
 	return value, true
+}
+
+// ---------------------------------------------------------------- direct fragment access for the real-cluster legs (C11/C17/C20)
+
+// VerifFragPositions returns the positions (row*ShardWidth + column%ShardWidth)
+// held by the fragment of (index, field, view, shard) on this holder; ok is
+// false when the fragment does not exist there.
+func VerifFragPositions(h *Holder, index, field, view string, shard uint64) (out []uint64, ok bool) {
+	frag := h.fragment(index, field, view, shard)
+	if frag == nil {
+		return nil, false
+	}
+	frag.forEachBit(func(r, c uint64) error { out = append(out, r*ShardWidth+c%ShardWidth); return nil })
+	sort.Slice(out, func(i, j int) bool { return out[i] < out[j] })
+	return out, true
+}
+
+// VerifFragForce drives the local fragment to exactly the given positions,
+// creating view and fragment WITHOUT telling the rest of the cluster (this is
+// how a replica diverges: a write the others never saw).
+func VerifFragForce(h *Holder, index, field, viewName string, shard uint64, want []uint64) error {
+	f := h.Field(index, field)
+	if f == nil {
+		return ErrFieldNotFound
+	}
+	v, _, err := f.createViewIfNotExistsBase(viewName)
+	if err != nil {
+		return err
+	}
+	frag, err := v.CreateFragmentIfNotExists(shard)
+	if err != nil {
+		return err
+	}
+	have, _ := VerifFragPositions(h, index, field, viewName, shard)
+	ws := map[uint64]bool{}
+	for _, p := range want {
+		ws[p] = true
+	}
+	for _, p := range have {
+		if !ws[p] {
+			if _, err := frag.clearBit(p/ShardWidth, shard*ShardWidth+p%ShardWidth); err != nil {
+				return err
+			}
+		}
+		delete(ws, p)
+	}
+	for p := range ws {
+		if _, err := frag.setBit(p/ShardWidth, shard*ShardWidth+p%ShardWidth); err != nil {
+			return err
+		}
+	}
+	frag.InvalidateChecksums()
+	return nil
+}
+
+// VerifFragBlocks returns "id:checksum" of every block of the local fragment.
+func VerifFragBlocks(h *Holder, index, field, view string, shard uint64) []string {
+	frag := h.fragment(index, field, view, shard)
+	if frag == nil {
+		return nil
+	}
+	var out []string
+	for _, b := range frag.Blocks() {
+		out = append(out, fmt.Sprintf("%d:%x", b.ID, b.Checksum))
+	}
+	return out
+}
+
+// VerifOwnsShard is the node's own answer to "do I own this shard" (the one
+// used by anti-entropy and the holder cleaner).
+func VerifOwnsShard(api *API, index string, shard uint64) bool {
+	return api.cluster.ownsShard(api.cluster.Node.ID, index, shard)
+}
+
+// VerifCleanHolder runs the holder cleaner exactly as the cluster does after
+// a resize (same Node / Holder / Cluster wiring).
+func VerifCleanHolder(api *API) error {
+	c := api.cluster
+	cleaner := holderCleaner{Node: c.Node, Holder: c.holder, Cluster: c, Closing: c.closing}
+	return cleaner.CleanHolder()
 }
